@@ -349,6 +349,8 @@ class H2Protocol:
                     await self.stream_buffers[event.stream_id].close()
                 await self._close_stream(event.stream_id)
                 await self._window_updated(event.stream_id)
+                # The connection may have become idle with this stream gone
+                await self.send(Updated(idle=self.idle))
             elif isinstance(event, h2.events.WindowUpdated):
                 await self._window_updated(event.stream_id)
             elif isinstance(event, h2.events.PriorityUpdated):
